@@ -248,8 +248,8 @@ def emitter_layouts(w):
     res = {}
     dyn_sites = []
     for f in sorted(c.fns.values(), key=lambda x: x.path):
-        if not f.file.endswith('compiler.rs') or f.path in emit.EMITTERS:
-            continue
+        if not f.file.endswith('compiler.rs') or (f.path in emit.EMITTERS and emit.EMITTERS[f.path] not in ('scope_end', 'return')):
+            continue      # the primitive emitters write what they are given; the compound ones (scope end, return) choose opcodes themselves
         evs = {bi: (k, o, d) for (bi, k, o, d) in emit.emissions(w, f)}
         if not evs:
             continue
